@@ -55,6 +55,10 @@ def skeleton(text):
             return ('and' if isinstance(n.op, ast.And) else 'or', [rec(v) for v in n.values])
         if isinstance(n, ast.UnaryOp) and isinstance(n.op, ast.Not):
             return ('not', rec(n.operand))
+        if isinstance(n, ast.Compare) and len(n.ops) == 1 and isinstance(n.ops[0], (ast.Eq, ast.NotEq, ast.Is, ast.IsNot)):
+            # symmetric comparisons: operands in text order (`a == b` is `b == a`)
+            a, b = sorted([n.left, n.comparators[0]], key=ast.unparse)
+            n = ast.Compare(left=a, ops=n.ops, comparators=[b])
         if isinstance(n, ast.Compare) and len(n.ops) == 1 and type(n.ops[0]) in NEG:
             pos = ast.Compare(left=n.left, ops=[NEG[type(n.ops[0])]()], comparators=n.comparators)
             return ('not', ('atom', _dec(ast.unparse(pos))))
@@ -64,6 +68,12 @@ def skeleton(text):
             return ('const', n.value)
         return ('atom', _dec(ast.unparse(n)))
     return rec(tree)
+
+
+def atom_name(text):
+    """Canonical spelling of an atom given as text (None when the text is not a single positive atom)."""
+    sk = skeleton(text)
+    return sk[1] if sk[0] == 'atom' else None
 
 
 def atoms(sk):
@@ -112,3 +122,25 @@ def same(sk, expected, over=None):
     """Do two skeletons denote the same boolean function (over the union of their atoms)?"""
     names = set(atoms(sk)) | set(atoms(expected)) | set(over or ())
     return table(sk, names)[0] == table(expected, names)[0]
+
+
+def from_fact(text, sk):
+    """Skeleton of one path decision.  The interpreter's own skeleton of the test (('not', s) ('and', [..]) ('or', [..])
+    ('cmp', op, l, r) ('call', f, [args]) ('expr', text) ('const', b)) has the sub-tests the scenario decided folded to
+    constants; its leaves are re-read through `skeleton` so that atoms are spelled as everywhere else."""
+    if sk is None:
+        return skeleton(text)
+    k = sk[0]
+    if k in ('and', 'or'):
+        return (k, [from_fact(None, x) for x in sk[1]])
+    if k == 'not':
+        return ('not', from_fact(None, sk[1]))
+    if k == 'const':
+        return ('const', bool(sk[1]))
+    if k == 'cmp':
+        return skeleton('%s %s %s' % (sk[2], sk[1], sk[3]))
+    if k == 'call':
+        return skeleton('%s(%s)' % (sk[1], ', '.join(sk[2])))
+    if k == 'expr':
+        return skeleton(sk[1])
+    return skeleton(text) if text is not None else ('atom', repr(sk))
